@@ -1262,6 +1262,34 @@ impl<'a> Sim<'a> {
         let kinds = self.check_block(h, &prop, &canon_resp, has_ext_item, n0).await;
         self.trace.abs(&format!("h={h} paths=[{path_sig}] kinds=[{kinds}]"));
 
+        // the block every node stores (non-verifiable storage, not covered by the app hash) must be
+        // the same whatever path the node took
+        {
+            use crate::grpc::StateReadExt as _;
+            let mut first: Option<(usize, Vec<u8>)> = None;
+            for n in 0..n_nodes {
+                if self.nodes[n].committed != h || !self.nodes[n].is_up() {
+                    continue;
+                }
+                let snap = self.nodes[n].storage.latest_snapshot();
+                let enc = match snap.get_sequencer_block_by_height(h).await {
+                    Ok(b) => b.into_raw().encode_to_vec(),
+                    Err(e) => {
+                        self.viol.push("C07", "stored-block-unreadable", "by-height", self.step, format!("h={h}: node {n} cannot read back the block it committed: {e:#}"));
+                        continue;
+                    }
+                };
+                match &first {
+                    None => first = Some((n, enc)),
+                    Some((n1, e1)) => {
+                        if *e1 != enc {
+                            self.viol.push("C05", "stored-block-differs", "sequencer-block", self.step, format!("h={h}: nodes {n1} (path {}) and {n} (path {}) store different SequencerBlocks for the same decided block", self.nodes[*n1].path, self.nodes[n].path));
+                        }
+                    }
+                }
+            }
+        }
+
         // ---- votes of this height -> extended commit for the next -----------------------------
         self.make_ext_commit(h, (n_rounds - 1) as u8, b).await;
     }
